@@ -93,6 +93,20 @@ def build_tree(rng, idx: int):
                 files.setdefault("src/pk/regular_sub/__init__.py", "")
             files["/".join(["src", *where, user + ".py"])] = f"from {dotted} import {g['token']}, {g['cls']}\n\n\ndef fn_imp_{idx}_{k}(x: {g['cls']} | None = None) -> int:\n    return {g['token']}(1)\n\n\nclass ClsImp{idx}x{k}({g['cls']}):\n    z: int = 3\n"
             gt.append({"rel": "/".join(["src", *where, user + ".py"]), "module_id": "/".join([*where, user]), "token": f"fn_imp_{idx}_{k}", "cls": f"ClsImp{idx}x{k}", "filtered": False, "proper_package": True})
+    # a class of a filtered file that carries the name of a regular class (a test double), both instantiated somewhere; the
+    # regular class is subclassed in regular modules that get it through the module or a wildcard import: what the flag adds
+    # to the analysis must not change what these modules say about their base class
+    pdirs = sorted({"/".join(g["rel"].split("/")[1:-1]) for g in gt if g["filtered"] and g["proper_package"] and not g.get("is_init")})
+    if pdirs and idx % 2 == 0:
+        d = pdirs[0]
+        files[f"src/{d}/zz_doubles_{idx}.py"] = f"class RealBase{idx}:\n    def fake(self) -> int:\n        return 0\n\n\n_double_{idx} = RealBase{idx}()\n\n\ndef fn_double_{idx}() -> int:\n    return RealBase{idx}().fake()\n\n\nclass DoubleOnly{idx}:\n    x: int = 1\n"
+        gt.append({"rel": f"src/{d}/zz_doubles_{idx}.py", "module_id": f"{d}/zz_doubles_{idx}", "token": f"fn_double_{idx}", "cls": f"DoubleOnly{idx}", "filtered": True, "proper_package": True})
+        files[f"src/pk/zz_real_{idx}.py"] = f"class RealBase{idx}:\n    def real(self) -> int:\n        return 1\n\n\ndef fn_real_{idx}() -> RealBase{idx}:\n    return RealBase{idx}()\n"
+        gt.append({"rel": f"src/pk/zz_real_{idx}.py", "module_id": f"pk/zz_real_{idx}", "token": f"fn_real_{idx}", "cls": f"RealBase{idx}", "filtered": False, "proper_package": True})
+        files[f"src/pk/derives_a_{idx}.py"] = f"import pk.zz_real_{idx} as zr\n\n\nclass ViaModule{idx}(zr.RealBase{idx}):\n    pass\n\n\ndef fn_via_module_{idx}() -> int:\n    return 1\n"
+        gt.append({"rel": f"src/pk/derives_a_{idx}.py", "module_id": f"pk/derives_a_{idx}", "token": f"fn_via_module_{idx}", "cls": f"ViaModule{idx}", "filtered": False, "proper_package": True})
+        files[f"src/pk/derives_b_{idx}.py"] = f"from .zz_real_{idx} import *\n\n\nclass ViaStar{idx}(RealBase{idx}):\n    pass\n\n\ndef fn_via_star_{idx}() -> int:\n    return 1\n"
+        gt.append({"rel": f"src/pk/derives_b_{idx}.py", "module_id": f"pk/derives_b_{idx}", "token": f"fn_via_star_{idx}", "cls": f"ViaStar{idx}", "filtered": False, "proper_package": True})
     return files, gt
 
 
